@@ -2,30 +2,44 @@ import Spine.DiscoveryThm
 import Spine.DiscoveryWritten
 import Spine.DiscoveryPartialEvents
 import Spine.DiscoveryHistory
+import Spine.DiscoveryGuardThm
 /-!
 # C06 — the remote device tree converges to what the peer announced
 
 Property theorems only (lemmas: `Spine/Discovery*.lean`).
 Model: `Spine.Disc` — the entity list of one remote device (`Tree`: per entity address, type, description and the
-feature list with id, type, role, description, operations) under `reply`, `notifyPartial`, `notifyFull`; the world
-around it (`World`: the trees of all peers, the subscription and binding registries of the local device, the
-client-side bookkeeping of local client features) under `World.step`. The model is a family (`Cfg`):
-`wholeMessage = true` transcribes the notification handler as written (for an `added` entry the *whole* message is
-added, for a `removed` entry *every* entry is removed), `false` the repair (each entry on its own);
-`bindEntityOnly = true` transcribes `RemoveBindingsForEntity` as written (compares the entity address only).
-`Cfg.clean` has both off. The handlers of the two members are `notifyPartial`/`notifyFull` and
-`notifyPartialFixed`/`notifyFullFixed`.
+feature list with id, type, role, description, operations) under discovery replies, partial and full notifications;
+the world around it (`World`: the trees of all peers, the subscription and binding registries of the local device, the
+client-side bookkeeping of local client features). The model is a family (`Cfg`); a flag that is `true` transcribes
+the code AS WRITTEN = the pinned commit a1767d0, `false` the repair that is in the tree now:
+* `wholeMessage`     — for an `added` entry the whole message is added, for a `removed` entry every entry is removed
+                       (repaired by 437adab: each entry on its own);
+* `bindEntityOnly`   — `RemoveBindingsForEntity` compares the entity address only (repaired by d78a414);
+* `removesDevInfo`   — a `removed` entry about the device-information entity [0] removes it (repaired by 711ee79: the
+                       entry is skipped, the loop goes on);
+* `refreshUnguarded` — a re-announcement of [0] without feature 0 takes node management away (repaired by 6fceef1: it
+                       is ignored for [0], the rest of the message is processed).
+`Cfg.clean` (all off) is the REPAIRED TREE (HEAD). Its handlers are `replyG` / `notifyG` / `notifyFullG`
+(`treeStepG`, `World.stepG`, file `DiscoveryGuard.lean`); they also model what the repaired code does with entries it
+rejects (empty address, unknown entity without entityType, entry without state change: the handler returns an error AT
+that entry — the entries before it are applied, the entries after it are not; ee6520e, aaa2de7) and with malformed
+feature elements (skipped when the message is unmarshalled, `MsgG.ofWire`; d6e3a1a, 8f63d7d, 211169e).
+`notifyPartial` / `notifyFull` are the pinned handlers, `notifyPartialFixed` / `notifyFullFixed` the member with only
+`wholeMessage` off (theorems about it are kept: the HEAD member is that member except at address [0]).
 
-SPEC, one address at a time: `specEntity` (one entry), `specFull` (a full notification), `specAnn` (one message),
-`applyTo` (known / unknown only), `appearances` (events), `specOps` (operations of one function).
+SPEC, one address at a time: `specEntityG` (one entry; = `specEntity` except that [0] is never removed and never loses
+feature 0), `specFull` (full notification), `specAnnG` (one message), `applyTo` / `appearances` (known / unknown and
+events), `specOps` (operations of one function).
 
-Status: every clause is proved for `Cfg.clean`, for all trees, messages, addresses and histories. For the code as
-written the tree and event clauses are REFUTED (both orders of the mixed notification) with partial theorems for
-single-entry notifications (content level) and for notifications whose entries share one state change (address level);
-the cascade clause is REFUTED for bindings (another peer's binding on an equally numbered entity disappears) with a
-partial theorem. Missing: a content-level partial theorem for multi-entry all-`added` notifications as written (needs
-idempotence of the refresh); the device part of addresses and `maxResponseDelay` are not in the model (the harness
-monitors the device part).
+Status: every clause is PROVED for `Cfg.clean` — all trees, well-formed messages, addresses, histories
+(`c06_history_head`); the device-information entity is kept over ALL histories, well formed or not
+(`c06_device_information_kept`); entries after a skipped [0] entry are applied (`c06_entries_after_devinfo_applied`).
+For the pinned commit the tree, event and cascade clauses are REFUTED (kernel-checked witnesses) with partial theorems.
+Rejected entries are outside the statement's quantifier (announcements a peer can make): what the code does with them
+is modelled and compared with the code, `c06_rejected_entry_stops` shows by a witness that "entries in order" would NOT
+hold for them (the suffix is dropped; in a reply the entities created before the rejected entry get no event).
+Missing: a content-level partial theorem for multi-entry all-`added` notifications of the pinned handler; the device
+part of addresses and `maxResponseDelay` are not in the model (the harness monitors the device part).
 -/
 namespace Spine.Props.C06
 open Spine Spine.Disc
@@ -321,5 +335,144 @@ theorem c06_other_peers_trees (c : Cfg) (w : World) (p q : Nat) (hq : q ≠ p) (
 
 example : (wEx.step {} 1 .part mRem1).1.trees 2 = wEx.trees 2 ∧ (wEx.step {} 1 .part mRem1).1.trees 1 ≠ wEx.trees 1 := by
   decide
+
+/-! ## the repaired tree (HEAD): device-information guards, rejected entries -/
+
+/-- `c06_device_information_kept`, ALL histories, well formed or not: whatever sequence of discovery replies, partial
+    and full notifications a peer sends — listing [0] as removed at any position, omitting it from a full notification
+    alone or with other entities, re-announcing it without feature 0, with entries that are rejected — entity [0]
+    with feature 0 (node management) stays in the tree, so the peer's next message finds its source feature. -/
+theorem c06_device_information_kept (h : List AnnG) (t : Tree) (ht : DevInfoOK t) : DevInfoOK (treeRunG Cfg.clean t h) :=
+  devInfo_history h t ht
+
+/-- a peer that lists [0] as removed between [1] and [2], re-announces [0] with feature 1 only, omits it from a full
+    notification and sends a rejected entry: [0] is as it was -/
+def exHistG : List AnnG :=
+  [⟨.part, ⟨[⟨[1], none, .removed, none⟩, ⟨[0], none, .removed, none⟩, ⟨[2], none, .removed, none⟩], []⟩⟩,
+   ⟨.part, ⟨[⟨[0], some 0, .added, some 1⟩, ⟨[1, 1], some 2, .added, none⟩], [⟨[0], 1, 1, 1, none, []⟩]⟩⟩,
+   ⟨.full, ⟨[⟨[1, 2], some 1, .none, none⟩], []⟩⟩,
+   ⟨.part, ⟨[⟨[], some 1, .added, none⟩, ⟨[1], some 1, .added, none⟩], []⟩⟩]
+def tG : Tree := [⟨[0], 0, none, [⟨[0], 0, 9, 2, none, []⟩]⟩, ⟨[1], 1, none, []⟩, ⟨[2], 1, none, []⟩]
+example : DevInfoOK tG ∧ treeRunG Cfg.clean tG exHistG = [⟨[0], 0, none, [⟨[0], 0, 9, 2, none, []⟩]⟩, ⟨[1, 2], 1, none, []⟩] := by
+  decide
+/-- the pinned commit loses it (C05's wedge) -/
+example : ¬ DevInfoOK (treeStepG { wholeMessage := false } .part ⟨[⟨[0], none, .removed, none⟩], []⟩ tG).1 := by decide
+
+/-- `c06_entries_after_devinfo_applied`: a `removed` entry about [0] is skipped and nothing else — the loop handles the
+    entries before it and the entries AFTER it exactly as if the entry were not in the list (the guard is `continue`,
+    not `return`), for every list, every position and every state. -/
+theorem c06_entries_after_devinfo_applied (feats : List F) (e0 : EW) (h0 : e0.addr = [0]) (hc : e0.chg = .removed)
+    (pre post : List EW) (acc : Tree × List Evt) :
+    runG (entryG Cfg.clean feats) (pre ++ e0 :: post) acc = runG (entryG Cfg.clean feats) (pre ++ post) acc :=
+  runG_skips_devInfo_removal feats e0 h0 hc pre post acc
+
+example : (notifyG Cfg.clean ⟨[⟨[1], none, .removed, none⟩, ⟨[0], none, .removed, none⟩, ⟨[2], none, .removed, none⟩], []⟩ tG)
+    = ([⟨[0], 0, none, [⟨[0], 0, 9, 2, none, []⟩]⟩], [.rem [1], .rem [2]], true) := by decide
+
+/-- C06, tree clause, partial notification, REPAIRED TREE, FULL STRENGTH: for every tree, every well-formed
+    notification (entries may be about [0]) and every address, the entity afterwards is what `specEntityG` obtains by
+    applying the entries in order. -/
+theorem c06_tree_head (m : MsgG) (t : Tree) (a : List Nat) (hw : m.WFpart) :
+    findE (notifyG Cfg.clean m t).1 a = (m.ents.map EW.toEI).foldl (specEntityG m.feats a) (findE t a) :=
+  guard_tree_notification m t a hw
+
+/-- … discovery reply of the repaired tree -/
+theorem c06_tree_reply_head (m : MsgG) (t : Tree) (a : List Nat) (hw : m.WFreply) :
+    findE (replyG Cfg.clean m t).1 a
+      = (m.ents.map EW.toEI).foldl (fun cur ei => specEntityG m.feats a cur { ei with chg := .added }) (findE t a) :=
+  guard_tree_reply m t a hw
+
+/-- … full notification of the repaired tree: at every address but [0] `specFull`; a known [0] stays exactly as it was
+    whether the notification lists it or omits it -/
+theorem c06_full_tree_head (m : MsgG) (t : Tree) (hw : m.WFfull) (hn : NoEmpty t) :
+    (∀ a, a ≠ [0] → findE (notifyFullG Cfg.clean m t).1 a = specFull m.toMsg a (findE t a)) ∧
+    ([0] ∈ addrs t → findE (notifyFullG Cfg.clean m t).1 [0] = findE t [0]) :=
+  ⟨fun a ha => guard_full_tree m t a ha hw hn, fun h0 => guard_full_devInfo m t h0 hw hn⟩
+
+/-- non-vacuity: a full notification that omits [0] and [1] and lists the unknown [1,1] -/
+example : (notifyFullG Cfg.clean ⟨[⟨[2], some 1, .none, none⟩, ⟨[1, 1], some 2, .none, some 3⟩], [⟨[1, 1], 1, 1, 1, none, [(1, 4)]⟩]⟩ tG)
+    = ([⟨[0], 0, none, [⟨[0], 0, 9, 2, none, []⟩]⟩, ⟨[2], 1, none, []⟩, ⟨[1, 1], 2, some 3, [⟨[1, 1], 1, 1, 1, none, [(1, 4)]⟩]⟩],
+       [.add [1, 1], .rem [1]], true) := by decide
+
+/-- C06 over histories, REPAIRED TREE, FULL STRENGTH: after any sequence of well-formed replies, partial and full
+    notifications — [0] listed as removed anywhere, omitted, re-announced with or without feature 0 included — the
+    entity at every address is the one obtained by applying the announcements in order. By induction over the list of
+    messages; `NoEmpty` (no entity with the empty address: none can be created) and `DevInfoOK` are invariants. -/
+theorem c06_history_head (h : List AnnG) (t : Tree) (a : List Nat) (hn : NoEmpty t) (hd : DevInfoOK t)
+    (hw : ∀ x ∈ h, x.WF) : findE (treeRunG Cfg.clean t h) a = h.foldl (specAnnG a) (findE t a) :=
+  guard_history h t a hn hd hw
+
+example : NoEmpty tG ∧ DevInfoOK tG := by decide
+
+/-- the well-formed part of `exHistG` -/
+example : ∀ x ∈ exHistG.take 3, x.WF := by
+  intro x hx
+  simp only [exHistG, List.take, List.mem_cons, List.not_mem_nil, or_false] at hx
+  rcases hx with rfl | rfl | rfl
+  · refine ⟨by decide, ?_⟩
+    intro e he
+    simp only [List.mem_cons, List.not_mem_nil, or_false] at he
+    rcases he with rfl | rfl | rfl <;> exact ⟨⟨by decide, fun h => absurd rfl h⟩, by decide⟩
+  · refine ⟨by decide, ?_⟩
+    intro e he
+    simp only [List.mem_cons, List.not_mem_nil, or_false] at he
+    rcases he with rfl | rfl <;> exact ⟨⟨by decide, fun _ => rfl⟩, by decide⟩
+  · intro e he
+    simp only [List.mem_cons, List.not_mem_nil, or_false] at he
+    rcases he with rfl
+    exact ⟨by decide, rfl⟩
+
+/-- C06, events, REPAIRED TREE: for a well-formed partial notification, at every address but [0] one entity-added
+    event each time an entry makes the address known and one entity-removed event each time an entry makes it unknown;
+    for [0] — present with feature 0 — no entity event at all. -/
+theorem c06_events_head (m : MsgG) (t : Tree) (hw : m.WFpart) :
+    (∀ a, a ≠ [0] →
+      (notifyG Cfg.clean m t).2.1.count (.add a) = (appearances a (decide (a ∈ addrs t)) (m.ents.map EW.toEI)).1 ∧
+      (notifyG Cfg.clean m t).2.1.count (.rem a) = (appearances a (decide (a ∈ addrs t)) (m.ents.map EW.toEI)).2) ∧
+    (DevInfoOK t → (notifyG Cfg.clean m t).2.1.count (.add [0]) = 0 ∧ (notifyG Cfg.clean m t).2.1.count (.rem [0]) = 0) := by
+  have he : m.ents.isEmpty = false := by cases h : m.ents with | nil => exact absurd h hw.1 | cons _ _ => rfl
+  have hrun : (notifyG Cfg.clean m t).2.1 = ((m.ents.map EW.toEI).foldl (stepGd Cfg.clean m.feats) (t, [])).2 := by
+    unfold notifyG
+    rw [he]
+    simp only [Bool.false_eq_true, if_false]
+    rw [runG_entry_wf Cfg.clean m.feats m.ents (t, []) hw.2]
+  rw [hrun]
+  refine ⟨fun a ha => ?_, fun hd => ?_⟩
+  · have := guard_events_refine m.feats a ha (m.ents.map EW.toEI) (t, [])
+    simpa using this
+  · have := guard_events_devInfo m.feats (m.ents.map EW.toEI) (t, []) hd
+    simpa using this
+
+/-- C06, cascade, REPAIRED TREE, FULL STRENGTH: after any discovery message of peer `p` (of any shape), in any world,
+    registries and client-side bookkeeping are exactly the previous ones minus the entries that refer to (`p`, an
+    entity the message removed); the trees of the other peers are untouched. -/
+theorem c06_cascade_head (w : World) (p : Nat) (k : Kind) (m : MsgG) :
+    let r := w.stepG Cfg.clean p k m
+    r.1.subs = w.subs.filter (fun e => !(e.peer = p && (removed r.2).contains e.cEnt)) ∧
+    r.1.binds = w.binds.filter (fun e => !(e.peer = p && (removed r.2).contains e.cEnt)) ∧
+    r.1.csubs = w.csubs.filter (fun e => !(e.peer = p && (removed r.2).contains e.rEnt)) ∧
+    r.1.cbinds = w.cbinds.filter (fun e => !(e.peer = p && (removed r.2).contains e.rEnt)) ∧
+    (∀ q, q ≠ p → r.1.trees q = w.trees q) := by
+  refine ⟨stepG_subs _ w p k m, ?_, stepG_csubs _ w p k m, stepG_cbinds _ w p k m,
+    fun q hq => stepG_other_trees _ w p q hq k m⟩
+  have := stepG_binds Cfg.clean w p k m
+  simpa [Cfg.clean] using this
+
+/-- non-vacuity: peer 1 lists [0] and [1] as removed; its four entries on [1] go, peer 2 keeps everything, [0] stays -/
+example : let r := wEx.stepG Cfg.clean 1 .part ⟨[⟨[0], none, .removed, none⟩, ⟨[1], none, .removed, none⟩], []⟩
+    r.2 = [.rem [1]] ∧ r.1.subs = [⟨2, [1], 1, [1], 1⟩] ∧ r.1.binds = [⟨2, [1], 1, [1], 2⟩] ∧
+    r.1.csubs = [⟨[1], 5, 2, [1], 2⟩] ∧ r.1.cbinds = [⟨[1], 5, 2, [1], 2⟩] ∧ addrs (r.1.trees 1) = [[0]] := by decide
+
+/-- OUTSIDE the statement (an entry no peer can meaningfully announce), recorded because the behaviour is modelled: an
+    entry the handler rejects ends the processing of the message. [2] before it is added with its event, [1,1] after it
+    is NOT — "the entries applied in order" does not hold for such a message; and in a reply the entity created before
+    the rejected entry is in the tree without any entity-added event. -/
+theorem c06_rejected_entry_stops :
+    notifyG Cfg.clean ⟨[⟨[2], some 1, .added, none⟩, ⟨[], some 1, .added, none⟩, ⟨[1, 1], some 1, .added, none⟩], []⟩
+        [⟨[0], 0, none, []⟩]
+      = ([⟨[0], 0, none, []⟩, ⟨[2], 1, none, []⟩], [.add [2]], false) ∧
+    replyG Cfg.clean ⟨[⟨[2], some 1, .none, none⟩, ⟨[1], none, .none, none⟩, ⟨[1, 1], some 1, .none, none⟩], []⟩
+        [⟨[0], 0, none, []⟩]
+      = ([⟨[0], 0, none, []⟩, ⟨[2], 1, none, []⟩], []) := by decide
 
 end Spine.Props.C06
